@@ -230,7 +230,7 @@ def _phimerge(t):
 
 
 _POS = {'NotEq': 'Eq', 'IsNot': 'Is', 'NotIn': 'In'}
-MAX_ATOMS = 10
+MAX_ATOMS = 14
 
 
 def _bool_atoms(c, out):
@@ -350,7 +350,7 @@ def cond_key(conds):
 def norm(t, lvnum=None, cvnum=None):
     if not isinstance(t, tuple):
         return t
-    return _resort(_phitable(_renumber(simplify(t), lvnum, cvnum)))
+    return _resort(_phitable(_resort(_renumber(simplify(t), lvnum, cvnum))))
 
 
 def _cond_key(conds, lvnum=None, cvnum=None):
@@ -461,8 +461,8 @@ class Summary:
         # the returns outside loops are one result: `if c: return a` followed by `return b` is `return a if c else b`
         top = [(i, e) for i, e in enumerate(self._raw_returns) if not any(isinstance(c, tuple) and c and c[0] == 'inloop' for c, _ in e.conds)]
         if len(top) > 1:
-            val = top[-1][1].data[0] if top[-1][1].data[0] is not None else ('const', None)
-            for _, e in reversed(top[:-1]):
+            val = ('const', 'no-return')        # every return is guarded by its own path condition, whichever is written last
+            for _, e in reversed(top):
                 v = e.data[0] if e.data[0] is not None else ('const', None)
                 cond = None
                 for c, pol in e.conds:
